@@ -27,6 +27,7 @@ META = {
 }
 
 REPLAY_KEY = "C06:crash-before-reorg-marker-replay-does-not-reorganise"
+TAIL6_KEY = "C06:replay-differs-after-failed-reorg-of-orphan-chain"
 CLS = {"latest": 1, "height": 2, "blk": 3, "tx": 4, "rcpt": 5, "marker": 6, "statemarker": 7}
 
 
@@ -149,6 +150,10 @@ def run(ctx):
                 what = ("C06:best-not-legit", "best block after crash at unit %d + recovery is neither the old nor the new tip" % k)
             elif not kr["converged"] and benign_diff(kr, o):
                 nbenign[0] += 1
+            elif not kr["converged"] and any("reorg failed" in st["err"] for st in o.get("steps", [])) and any(b.get("bad") for b in c["blocks"]):
+                # the crash-free run itself was held back by the C07 orphan-tail finding (reorg towards an invalid parked tail
+                # failed, the valid longer prefix was not adopted); after a restart the orphan pool is empty and the replay adopts it
+                what = (TAIL6_KEY, "crash at unit %d: replay reaches a longer valid branch than the crash-free run, which was blocked by a failed reorg towards an invalid orphan tail" % k)
             elif not kr["converged"]:
                 arr = ua[k] if k < len(ua) else None
                 later_marker = arr is not None and any(("marker" in units[j]["classes"]) for j in range(k, len(units)) if ua[j] == arr)
